@@ -3,6 +3,7 @@ package main
 // Obligation -> SMT-LIB query, solver portfolio (z3-new, z3, cvc5), result parsing.
 
 import (
+	"go/types"
 	"context"
 	"crypto/sha1"
 	"fmt"
@@ -248,7 +249,8 @@ func (o *Obligation) Query2() (string, []string, []*Term) {
 	return text, lightText, gt
 }
 
-// infoTerms: entry-state field values of pointer parameters, slice headers.
+// infoTerms: entry-state values the replay reifier needs: struct fields of pointer parameters, slice
+// headers and leading elements, dynamic types and payloads of interface parameters.
 func (ex *Exec) infoTerms() []*Term {
 	var out []*Term
 	var names []string
@@ -256,23 +258,82 @@ func (ex *Exec) infoTerms() []*Term {
 		names = append(names, n)
 	}
 	sort.Strings(names)
+	var tns []string
+	for tn := range boxTypes {
+		tns = append(tns, tn)
+	}
+	sort.Strings(tns)
 	for _, n := range names {
 		v := ex.params[n]
 		if v.T == nil {
 			continue
 		}
-		switch v.T.S {
-		case SSlice:
-			out = append(out, Acc("sbase", v.T), Acc("soff", v.T), Acc("slen", v.T), Acc("scap", v.T))
-		case SPtr:
-			out = append(out, Acc("pbase", v.T), Acc("pidx", v.T))
-		case SInt:
-			typ := ex.paramTyp[n]
-			if typ == nil {
+		typ := ex.paramTyp[n]
+		if typ == nil {
+			continue
+		}
+		out = append(out, ex.valueInfoTerms(typ, v.T, tns, 0)...)
+	}
+	return out
+}
+
+func (ex *Exec) valueInfoTerms(typ types.Type, t *Term, tns []string, depth int) []*Term {
+	var out []*Term
+	if depth > 2 {
+		return nil
+	}
+	switch u := typ.Underlying().(type) {
+	case *types.Slice:
+		out = append(out, Acc("sbase", t), Acc("soff", t), Acc("slen", t), Acc("scap", t))
+		comp, _ := ex.V.elemComp(u.Elem())
+		if h, ok := ex.initHeap[comp]; ok {
+			if s := ex.V.sortOf(u.Elem()); s == SInt || s == SReal || s == SBool {
+				for k := int64(0); k < 8; k++ {
+					out = append(out, Select(Select(h, Acc("sbase", t)), Add(Acc("soff", t), IntLit(k))))
+				}
+			}
+		}
+	case *types.Pointer:
+		if isStruct(u.Elem()) {
+			out = append(out, t)
+			out = append(out, ex.structInfoTerms(typ, t)...)
+			// leading elements of slice-typed fields
+			si := ex.V.structOf(u.Elem())
+			for i := 0; i < si.st.NumFields(); i++ {
+				f := si.st.Field(i)
+				if _, ok := f.Type().Underlying().(*types.Slice); ok {
+					comp, _ := ex.V.fieldComp(si, i)
+					if h, ok := ex.initHeap[comp]; ok {
+						out = append(out, ex.valueInfoTerms(f.Type(), Select(h, t), tns, depth+1)...)
+					}
+				}
+			}
+		} else {
+			out = append(out, Acc("pbase", t), Acc("pidx", t))
+		}
+	case *types.Struct:
+		si := ex.V.structOf(typ)
+		for i := 0; i < si.st.NumFields(); i++ {
+			f := si.st.Field(i)
+			ft := Acc("fld:"+si.name+"."+f.Name(), t)
+			if pt, ok := f.Type().Underlying().(*types.Pointer); ok && !isStruct(pt.Elem()) {
+				comp, _ := ex.V.elemComp(pt.Elem())
+				if h, ok := ex.initHeap[comp]; ok {
+					out = append(out, Select(Select(h, Acc("pbase", ft)), Acc("pidx", ft)))
+				}
+			}
+		}
+	case *types.Interface:
+		for _, tn := range tns {
+			bt := boxTypes[tn]
+			if _, isIface := bt.Underlying().(*types.Interface); isIface {
 				continue
 			}
-			out = append(out, ex.structInfoTerms(typ, v.T)...)
+			out = append(out, IsBox(tn, t))
+			out = append(out, ex.valueInfoTerms(bt, Unbox(tn, ex.V.sortOf(bt), t), tns, depth+1)...)
 		}
+	case *types.Basic:
+		out = append(out, t)
 	}
 	return out
 }
@@ -636,6 +697,12 @@ func (V *Verifier) solveRendered(o *Obligation, pass int) {
 		o.Status = "failed"
 		if res.status == "sat" {
 			o.Model = parseValuesStr(res.output, r.gts)
+			if !o.Cover {
+				// prefer a small counterexample (replayable sizes): re-solve with every integer of interest bounded
+				if m2 := V.smallModel(file, r); m2 != nil {
+					o.Model = m2
+				}
+			}
 		}
 	default:
 		o.Status = "unknown"
@@ -1173,4 +1240,31 @@ func termSize(t *Term) int {
 		}
 	}
 	return n
+}
+
+// smallModel re-runs the (satisfiable) query with bounds on all integer terms of interest.
+func (V *Verifier) smallModel(file string, r *rendered) map[string]string {
+	text := r.text
+	k := strings.LastIndex(text, "(check-sat)")
+	if k < 0 {
+		return nil
+	}
+	var sb strings.Builder
+	sb.WriteString(text[:k])
+	for i, g := range r.gt {
+		if g.S == SInt {
+			sb.WriteString(fmt.Sprintf("(assert (and (<= (- 4) %s) (<= %s 40)))\n", r.gts[i], r.gts[i]))
+		}
+	}
+	sb.WriteString(text[k:])
+	sfile := strings.TrimSuffix(file, ".smt2") + ".small.smt2"
+	if err := os.WriteFile(sfile, []byte(sb.String()), 0644); err != nil {
+		return nil
+	}
+	defer os.Remove(sfile)
+	st, out, _ := runSolver(context.Background(), "z3-new", []string{"-T:10"}, sfile, 10*time.Second)
+	if st != "sat" {
+		return nil
+	}
+	return parseValuesStr(out, r.gts)
 }
